@@ -1,5 +1,5 @@
 (* ZipPathFacts.v — facts about Lib/ZipPath.v on "/"-joined component lists. *)
-From Coq Require Import Lia.
+From Coq Require Import Arith Lia.
 From PG Require Import Lib.Str Lib.StrFacts Lib.ZipPath.
 Local Open Scope N_scope.
 
@@ -80,7 +80,7 @@ Qed.
 Lemma rstrip_sl_snoc a : (exists ch t, rev a = ch :: t /\ ch <> SL) -> rstrip_sl (a ++ [SL]) = a.
 Proof.
   intros (ch & t & E & Hc). unfold rstrip_sl. rewrite rev_app_distr. simpl.
-  rewrite N.eqb_refl, E. simpl. apply N.eqb_neq in Hc. rewrite Hc.
+  rewrite E. simpl. apply N.eqb_neq in Hc. rewrite Hc.
   rewrite <- E. apply rev_involutive.
 Qed.
 
